@@ -67,3 +67,59 @@ Definition mmap_set {A : Type} (m : list (string * A)) (k : string) (v : A) : li
   else (m ++ [(k, v)])%list.
 Definition mset_has (s : list string) (k : string) : bool := mem k s.
 Definition mset_add (s : list string) (k : string) : list string := k :: s.
+
+(* ---- imports.go: the handler's map of imports, packages.Package.Imports, optional values
+   i, ok := ih.imports[k]                      (tmap_get t k, tmap_has t k)   (zero ImportDesc when absent)
+   ih.imports[k] = i                           tmap_set t k i
+   i.f = e  (i a pointer read from the map)    imp_with_f i e, then tmap_set (the entry is the same object)
+   importPkg, ok := pkg.Imports[k]             (amap_get m k, amap_has m k)   (the NAME of the package)
+   x != nil (optional values)                  is_some x;  spec.Name.Name = opt_get
+   pkg.Path() / pkg.Name()                     pkg_path / pkg_name
+   types.Default(t).String() of a typed basic type: the type's own name (IFaceModel: TBasic; the untyped
+   kinds are C13's)                            types_default_string
+   for i := 0; i < l.Len(); i++ { … l.At(i) … }  list_fold (fun state i x => state') l state           *)
+Definition imp_zero : imp := Imp "" "" false false.
+Definition tmap_get (t : table) (k : string) : imp := match tget t k with Some i => i | None => imp_zero end.
+Definition tmap_has (t : table) (k : string) : bool := match tget t k with Some _ => true | None => false end.
+Fixpoint tmap_set (t : table) (k : string) (v : imp) : table :=
+  match t with
+  | [] => [v]
+  | j :: r => if String.eqb k (i_path j) then v :: r else j :: tmap_set r k v
+  end.
+Definition imp_with_in_use (i : imp) (b : bool) : imp := Imp (i_path i) (i_alias i) (i_alias_is_pkg i) b.
+Definition imp_with_alias (i : imp) (a : string) : imp := Imp (i_path i) a (i_alias_is_pkg i) (i_in_use i).
+Definition imp_with_is_pkg (i : imp) (b : bool) : imp := Imp (i_path i) (i_alias i) b (i_in_use i).
+Definition imp_with_path (i : imp) (p : string) : imp := Imp p (i_alias i) (i_alias_is_pkg i) (i_in_use i).
+Definition amap_get (m : list (string * string)) (k : string) : string :=
+  match assoc m k with Some n => n | None => EmptyString end.
+Definition amap_has (m : list (string * string)) (k : string) : bool :=
+  match assoc m k with Some _ => true | None => false end.
+Definition is_some {A : Type} (x : option A) : bool := match x with Some _ => true | None => false end.
+Definition opt_get (x : option string) : string := match x with Some s => s | None => EmptyString end.
+Definition is_nil {A : Type} (l : list A) : bool := match l with [] => true | _ => false end.
+Definition pkg_path (p : option (string * string)) : string := match p with Some pp => fst pp | None => EmptyString end.
+Definition pkg_name (p : option (string * string)) : string := match p with Some pp => snd pp | None => EmptyString end.
+Definition types_default_string (s : string) : string := s.
+
+Fixpoint list_fold_from {A St : Type} (f : St -> nat -> A -> St) (i : nat) (l : list A) (s : St) : St :=
+  match l with
+  | [] => s
+  | x :: r => list_fold_from f (S i) r (f s i x)
+  end.
+Definition list_fold {A St : Type} (f : St -> nat -> A -> St) (l : list A) (s : St) : St := list_fold_from f 0 l s.
+
+(* a *Param as Declarations / TypeNames / Signature see it *)
+Record gparam := GP { gp_name : string; gp_variadic : bool; gp_typeref : string;
+                      gp_ctx : bool; gp_err : bool }.   (* the last two: TypeImplements(ActualType, …) *)
+Definition gp_with_typeref (g : gparam) (s : string) : gparam := GP (gp_name g) (gp_variadic g) s (gp_ctx g) (gp_err g).
+Definition gp_with_name (g : gparam) (s : string) : gparam := GP s (gp_variadic g) (gp_typeref g) (gp_ctx g) (gp_err g).
+Definition gp_pinfo (g : gparam) : pinfo := PI (gp_name g) (gp_ctx g) (gp_err g).
+(* m.ensureParamNames() on a Method whose parameters are gparams: the naming functions work on the
+   pinfo view and the names are written back *)
+Definition gp_set_names (l : list gparam) (ps : list pinfo) : list gparam :=
+  map (fun gp : gparam * pinfo => gp_with_name (fst gp) (pi_name (snd gp))) (combine l ps).
+(* t, ok := x.( *types.Pointer ) / x.( *types.Named ) on IFaceModel.ty *)
+Definition ty_is_ptr (t : ty) : bool := match t with TPtr _ => true | _ => false end.
+Definition ty_ptr_elem (t : ty) : ty := match t with TPtr e => e | _ => t end.
+Definition ty_is_named (t : ty) : bool := match t with TNamed _ _ _ => true | _ => false end.
+Definition ty_named_targs (t : ty) : list ty := match t with TNamed _ _ l => l | _ => [] end.
